@@ -826,7 +826,7 @@ def _has_havoc(v):
         if e.get_id() in seen:
             continue
         seen.add(e.get_id())
-        if z3.is_const(e) and e.decl().kind() == z3.Z3_OP_UNINTERPRETED and e.decl().name().startswith("hv_"):
+        if z3.is_app(e) and e.decl().kind() == z3.Z3_OP_UNINTERPRETED and e.decl().name().startswith("hv_"):
             return True
         stack.extend(e.children())
     return False
